@@ -102,6 +102,8 @@ func (h *NFSProcedureHandler) handleCreate(body io.Reader, reply *RPCReply, auth
 			// UNCHECKED over an existing file: the only attribute applied is an explicit size
 			if sattr.Size > uint64(math.MaxInt64) {
 				status = NFSERR_INVAL
+			} else if h.server.handler.exceedsMaxFileSize(sattr.Size) {
+				status = NFSERR_FBIG
 			} else if err := h.server.handler.fs.Truncate(lookupPath, int64(sattr.Size)); err != nil {
 				status = mapError(err)
 			}
